@@ -33,10 +33,6 @@ Definition value_str (v : value) : string :=
   | VLit l _ _ => l
   end.
 
-(* "time" in attr.localpart.lower() and attr.namespace.prefix == "prov" *)
-Definition prov_timeish (a : qname) : bool :=
-  String.eqb (ns_prefix (qn_ns a)) "prov" && contains_str "time" (lower (qn_local a)).
-
 Definition intl_string (d : qname) : bool := is_prov_name "InternationalizedString" d.
 
 Definition xml_emit (ft : bool) (a : qname) (v : value) : xout :=
@@ -66,7 +62,7 @@ Definition xml_emit (ft : bool) (a : qname) (v : value) : xout :=
       | VStr _ => (Some "xsd:string", txt0)
       | VFloat _ _ _ => (Some "xsd:double", txt0)
       | VInt _ => (Some "xsd:int", txt0)
-      | VTime _ => (if prov_timeish a then None else Some "xsd:dateTime", txt0)
+      | VTime _ => (if is_time_attr a then None else Some "xsd:dateTime", txt0)   (* attr in PROV_ATTRIBUTE_LITERALS *)
       | VId _ => (Some "xsd:anyURI", txt0)
       | _ => (None, txt0)
       end
